@@ -210,6 +210,10 @@ def text_strategy(registry_bics):
     return st.one_of(near(), near(), anytext, alnum)
 
 
+def text_strategy_with_registry():
+    return text_strategy(sorted({e["bic"] for e in oreg.load_banks() if e.get("bic")}))
+
+
 def hyp_body(rec, v):
     kind, t, strict = v
     w = check_bic(rec, t, strict, f"hyp:{kind}")
@@ -244,7 +248,7 @@ def run(ctx):
             w = check_bic(rec, b, strict, "registry")
             rec.case("registry-accepted" if w else "registry-rejected", (b, strict))
     hostile_registry(rec)
-    ctx.hyp_explore(text_strategy(bics), hyp_body, ctx.pick(5000, 200000), name="C04-text")
+    ctx.hyp_parallel(text_strategy_with_registry, hyp_body, ctx.pick(8000, 400000), name="C04-text")
     if not ctx.quick:
         from ..engines import fuzz
         fuzz.run_campaign(ctx.rec, "bic-c04", 150000, ctx.seed, ctx.prop)   # secondary engine: coverage-guided, oracle inside
